@@ -489,6 +489,29 @@ def Call.methodName : Call → Option String
 
 def showRows (xs : List Nat) : String := Proto.joinWith "," (xs.map fun i => "r" ++ toString i)
 
+/-- The guide tree every fake program writes (and the harness passes to `set_guide_tree`): the caterpillar
+`((…((0,1),2)…),n-1)` over *input indices*, canonically printed as the leaf sets of its internal nodes. -/
+def showClades (n : Nat) : String := Proto.joinWith ";" ((List.range (n - 1)).map fun k => "0.." ++ toString (k + 1))
+
+/-! ### Exotic sequence types (`util.map_sequence`): symbol `i` of a custom alphabet becomes the `i`-th amino-acid symbol -/
+
+/-- `ProteinSequence.alphabet` (tied to seqtypes.py by `C20_map_tie`). -/
+def proteinLetters : List Char :=
+  ['A', 'C', 'D', 'E', 'F', 'G', 'H', 'I', 'K', 'L', 'M', 'N', 'P', 'Q', 'R', 'S', 'T', 'V', 'W', 'Y', 'B', 'Z', 'X', '*']
+
+/-- `map_sequence`: `if len(sequence.alphabet) > len(ProteinSequence.alphabet): raise TypeError`; otherwise the code is
+taken over unchanged, i.e. symbol code `c` is shown to the program as `proteinLetters[c]`.  `k` = size of the custom
+alphabet, `codes` = the sequence (every code `< k` by construction of a `Sequence`). -/
+def mapSequence (k : Nat) (codes : List Nat) : Except Err (List Char) :=
+  if k > proteinLetters.length then .error .typeError
+  else .ok (codes.map fun c => proteinLetters.getD c '?')
+
+/-- Mapping back: the position of a letter in the amino-acid alphabet is the original symbol code. -/
+def unmapLetter (ch : Char) : Option Nat :=
+  let i := proteinLetters.idxOf ch
+  if i < proteinLetters.length then some i else none
+
+
 /-- Effect and value of an accepted getter/setter. -/
 def methodBody (s : St) (m : String) : St × Res :=
   if m = "set_exec_dir" then ({ s with execOther := true }, .ok "")
@@ -504,7 +527,10 @@ def methodBody (s : St) (m : String) : St × Res :=
     | none => (s, .err (.other "AttributeError"))
   else if m = "get_exit_code" then (s, .ok (if s.tool = .exit3 then "3" else if s.tool = .sigkill then "-9" else "0"))
   else if m = "get_seqtype" then (s, .ok s.seqtype)
-  else if m = "get_distance_matrix" then (if s.mbed then (s, .err .valueError) else (s, .ok ""))
+  else if m = "get_distance_matrix" then
+    -- the fake program writes d(i,j) = |i-j| in input order; the first row is printed
+    (if s.mbed then (s, .err .valueError) else (s, .ok (Proto.showNats (List.range s.n))))
+  else if m = "get_guide_tree" then (s, .ok (showClades s.n))
   else (s, .ok "")
 
 /-- One call on the wrapper (or one environment event). -/
